@@ -779,6 +779,8 @@ func ptRange(t *pt) (lo, hi *big.Int) {
 		return big.NewInt(0), big.NewInt(255)
 	case "brw", "needexp", "asmret":
 		return big.NewInt(0), big.NewInt(1)
+	case "nzw":
+		return big.NewInt(0), new(big.Int).Sub(new(big.Int).Lsh(big.NewInt(1), 64), big.NewInt(1))
 	case "len", "cap", "val":
 		return big.NewInt(0), nil
 	case "rem":
